@@ -155,6 +155,14 @@ theorem crop_deciding_attr {m m' : MeshVal α} (h : WF m) {k : AttrKey} {inside 
 example : ∃ m', cloud.crop ⟨3, "Position"⟩ (· > 11) = some m' ∧ CropContract ⟨3, "Position"⟩ (· > 11) cloud m' :=
   ⟨_, rfl, by decide⟩
 
+/-- `CropAttribute3DNodeData.Process`: without a box the mesh is returned as it is; with a box it is the crop contract on the
+    wired attribute (default Position) -/
+theorem cropNode_spec (m : MeshVal α) (attr : Option String) :
+    m.cropNode attr none = some m ∧
+    ∀ (p : α → Bool) (m' : MeshVal α), WF m → m.cropNode attr (some p) = some m' →
+      CropContract ⟨3, attr.getD "Position"⟩ p m m' :=
+  ⟨rfl, fun _ _ h hm => crop_contract h hm⟩
+
 /-! ## ScaleAttributeAlongNormal -/
 
 section transforms
@@ -213,6 +221,22 @@ theorem scaleAlongNormal_rejects_wf {m : MeshVal (List s)} (h : WF m) (a n : Str
   · rintro (h1 | h2)
     · exact Or.inl h1
     · exact Or.inr (Or.inl h2)
+
+omit [DecidableEq s] in
+/-- `ScaleAttributeAlongNormalNodeData.Process`: the empty triangle mesh exactly when no mesh is wired or one of the two
+    attributes (defaults Position / Normal) is missing; otherwise the function's result with amount defaulting to 0 -/
+theorem scaleAlongNormalNode_spec (m : MeshVal (List s)) (attr nrm : Option String) (amount : Option s) :
+    MeshVal.scaleAlongNormalNode (none : Option (MeshVal (List s))) attr nrm amount = some (MeshVal.empty .triangle) ∧
+    MeshVal.scaleAlongNormalNode (some m) attr nrm amount =
+      (if m.hasAttr ⟨3, attr.getD "Position"⟩ = false ∨
+          m.hasAttr ⟨3, nrm.getD "Normal"⟩ = false
+       then some (MeshVal.empty .triangle)
+       else m.scaleAlongNormal (attr.getD "Position")
+              (nrm.getD "Normal") (amount.getD ((0 : Nat) : s))) := by
+  refine ⟨rfl, ?_⟩
+  simp only [MeshVal.scaleAlongNormalNode]
+  cases h1 : m.hasAttr ⟨3, attr.getD "Position"⟩ <;>
+    cases h2 : m.hasAttr ⟨3, nrm.getD "Normal"⟩ <;> simp
 
 omit [DecidableEq s] in
 /-- the per-vertex map on well-shaped payloads: `v + w * amount` (component-wise, Go's operation order) -/
